@@ -1335,6 +1335,8 @@ class _FileMover:
         """Initialize a new FileMover to track file operations."""
         self.past_renames = []
         self.pending_deletions = []
+        # (number of renames performed before it, path, previous mode)
+        self.past_chmods = []
 
     def rename(self, from_, to):
         """Rename a file from one path to another."""
@@ -1358,16 +1360,39 @@ class _FileMover:
         self.rename(from_, to)
         self.pending_deletions.append(to)
 
+    def chmod(self, path, old_mode, new_mode):
+        """Change the mode of a file, remembering the old one for rollback.
+
+        :param path: The file whose mode is changed
+        :param old_mode: Its current mode
+        :param new_mode: The mode to set
+        """
+        osutils.chmod_if_possible(path, new_mode)
+        self.past_chmods.append((len(self.past_renames), path, old_mode))
+
+    def _undo_chmods(self, chmods, count):
+        """Undo the mode changes made after `count` renames had been done."""
+        while chmods and chmods[-1][0] >= count:
+            _count, path, old_mode = chmods.pop()
+            osutils.chmod_if_possible(path, old_mode)
+
     def rollback(self):
-        """Reverse all renames that have been performed."""
-        for from_, to in reversed(self.past_renames):
+        """Reverse all renames and mode changes that have been performed."""
+        chmods = list(self.past_chmods)
+        for count in range(len(self.past_renames), 0, -1):
+            # Mode changes are undone while the file still has the name it
+            # had when its mode was changed.
+            self._undo_chmods(chmods, count)
+            from_, to = self.past_renames[count - 1]
             try:
                 os.rename(to, from_)
             except OSError as e:
                 raise TransformRenameFailed(to, from_, str(e), e.errno) from e
+        self._undo_chmods(chmods, 0)
         # after rollback, don't reuse _FileMover
         self.past_renames = None
         self.pending_deletions = None
+        self.past_chmods = None
 
     def apply_deletions(self):
         """Apply all marked deletions."""
@@ -1376,6 +1401,7 @@ class _FileMover:
         # after apply_deletions, don't reuse _FileMover
         self.past_renames = None
         self.pending_deletions = None
+        self.past_chmods = None
 
 
 def link_tree(target_tree, source_tree):
